@@ -290,6 +290,7 @@ def run(ctx):
     _dedupe_keys(ctx, repo)
     _tag_order(ctx, repo)
     _unset_string_default(ctx, repo)
+    _operand_order(ctx, repo)
     shared.module_state_rule(ctx, 'C16.i', ['cirq-google/cirq_google/api/', 'cirq-google/cirq_google/serialization/', 'cirq-google/cirq_google/study/', 'cirq-google/cirq_google/devices/'], floor=3)
     ctx.decided.append('C16.i converters keep no state between calls: module-level containers of the serialization packages are never written from inside a function')
 
@@ -1398,3 +1399,36 @@ def _unset_string_default(ctx, repo):
                            'None: the default-constructed object does not round-trip to an equal one', m.rel, c.lineno)
     if n == 0:
         raise AnalysisError('C16.n: no string field feeding a None-default parameter found')
+
+
+def _operand_order(ctx, repo, rid='C16.o'):
+    """C16.o - the operands of a symbolic expression are written in their own order (Pow, Mod ... are not symmetric in their operands)."""
+    ctx.decided.append(f'{rid} symbolic arguments: _arg_func_to_proto writes the operands of a sympy node in the node\'s own order - no sorted / reversed / set on value.args (base and '
+                       'exponent of a power are told apart by position only)')
+    ctx.rule(rid, 'operand order preserved: in cirq_google.serialization.arg_func_langs every loop that feeds <x>.args of a sympy value to arg_to_proto iterates <x>.args itself or a name '
+             'bound only to it / to tuple(...) / list(...) of it - never through sorted, reversed, set or a sort key', floor=1, style='TNT')
+    m = repo.module('cirq-google/cirq_google/serialization/arg_func_langs.py')
+    REORDER = {'sorted', 'reversed', 'set', 'frozenset', 'sort', 'ordered', 'default_sort_key'}
+    n = 0
+    for fn in [f for f in ast.walk(m.tree) if isinstance(f, ast.FunctionDef)]:
+        defs = {}
+        for a in ast.walk(fn):
+            if isinstance(a, ast.Assign) and len(a.targets) == 1 and isinstance(a.targets[0], ast.Name):
+                defs.setdefault(a.targets[0].id, []).append(a.value)
+        for lp in [l for l in ast.walk(fn) if isinstance(l, ast.For)]:
+            if not any(isinstance(c, ast.Call) and (call_name(c) or '').split('.')[-1] == 'arg_to_proto' for c in ast.walk(lp)):
+                continue
+            exprs = [lp.iter]
+            if isinstance(lp.iter, ast.Name):
+                exprs = defs.get(lp.iter.id, [])
+            if not any(isinstance(x, ast.Attribute) and x.attr == 'args' for e in exprs for x in ast.walk(e)):
+                continue
+            n += 1
+            bad = [c for e in exprs for c in ast.walk(e) if (isinstance(c, ast.Call) and (call_name(c) or '').split('.')[-1] in REORDER)
+                   or (isinstance(c, ast.Attribute) and c.attr in ('default_sort_key',))]
+            ok = not bad
+            ctx.ob(rid, f'{m.name}.{fn.name}:operands', ok, '' if ok else
+                   f'the operands written in `for {ast.unparse(lp.target)} in {ast.unparse(lp.iter)}` can come from `{ast.unparse(bad[0])[:60]}`: re-ordering swaps base and exponent of a power '
+                   '(x**2 is read back as 2**x)', m.rel, lp.lineno)
+    if n == 0:
+        raise AnalysisError('C16.o: no loop writing the operands of a symbolic value found')
